@@ -62,7 +62,9 @@ def main():
                 c = sh("%s/vcheck %s quick" % (HERE, prop), cwd=HERE, env=env)
                 if c.returncode != 0:
                     keys = sorted(set(l.split("key=")[1].split(" what=")[0] for l in c.stdout.splitlines() if l.strip().startswith("key=")))
-                    new_keys = [k for k in keys if k not in reference.get(prop, [])]
+                    # (the innermost frame is part of some keys; refactorings rename and split functions)
+                    seen = set(k.split("@")[0] for k in reference.get(prop, []))
+                    new_keys = [k for k in keys if k.split("@")[0] not in seen]
                     if new_keys or (not keys and c.returncode != 0 and prop not in reference):
                         out["alarms"][prop] = {"rc": c.returncode, "keys": new_keys[:8], "tail": c.stdout[-400:]}
         else:
